@@ -14,6 +14,8 @@ from fsic.exceptions import NonConvergenceError, SolutionError
 def bits(x):
     """IEEE-754 bit pattern of a double; every NaN is canonicalised (sign/payload of a NaN are not observable
     through fsic and Lean's `Float.toBits` canonicalises too)."""
+    if isinstance(x, (complex, np.complexfloating)):     # object-dtype series can hold what float64 would call NaN
+        x = x.real if x.imag == 0 else float('nan')
     x = float(x)
     if x != x:
         return 0x7FF8000000000000
@@ -145,6 +147,9 @@ def scripted_class(nE, check, mixins=(), exo=('X',), style=None):
             self.__dict__['v0'] = self._cv(t)
             acts = self.before_script
             p = self._pos(t)
+            if self.__dict__.get('hook_style') == 'swallow':
+                # an override that does not forward the optional `iteration` keyword (it is documented as optional)
+                kw = {k: v for k, v in kw.items() if k != 'iteration'}
             super().solve_t_before(t, *a, **kw)
             if p < len(acts):
                 self._play(t, acts[p])
@@ -264,12 +269,29 @@ def with_provenance(make, span, prov, names=(), prepare=None):
     return make(span)
 
 
+_SWALLOW = {}
+
+
+def swallowing(cls):
+    """A user subclass sitting in FRONT of every mixin whose pre-solution hook override does not forward the optional
+    `iteration` keyword to `super()` (the keyword is documented as optional)."""
+    if cls not in _SWALLOW:
+        class Swallowing(cls):
+            def solve_t_before(self, t, *a, **kw):
+                kw.pop('iteration', None)
+                super().solve_t_before(t, *a, **kw)
+        _SWALLOW[cls] = Swallowing
+    return _SWALLOW[cls]
+
+
 def build_instance(case, mixins=(), span=None, exo=('X',)):
     extra = tuple(c for c in mix_classes(case.get('mix')) if c not in mixins)
     # `check_edit`: the class declares every endogenous variable as a check variable and the INSTANCE's `check` list is
     # then edited down to the case's subset (what the solver must use is the instance's list)
     edit = bool(case.get('check_edit'))
     cls = scripted_class(case['nE'], 'ALL' if edit else case['check'], tuple(mixins) + extra, exo, case.get('names'))
+    if case.get('hook_style') == 'swallow':
+        cls = swallowing(cls)
     n = case['n']
     names = names_of(case)
 
@@ -292,6 +314,7 @@ def build_instance(case, mixins=(), span=None, exo=('X',)):
     d['v0'] = None
     d['seen_at_before'] = None
     d['write_mode'] = case.get('write', 'inplace')
+    d['hook_style'] = case.get('hook_style', 'forward')
     if edit:
         m.check = [names[i] for i in case['check']]
     if case.get('strict'):
@@ -305,10 +328,11 @@ def vary_implementation_side(case, rng):
     case['write'] = rng.choice(['inplace', 'inplace', 'rebind'])
     case['prov'] = rng.choice(PROVENANCES)
     case['names'] = rng.choice(NAME_STYLES)
-    case['argform'] = rng.choice(['plain', 'plain', 'numpy'])
+    case['argform'] = rng.choice(['plain', 'plain', 'numpy', 'omit'])
     case['mix'] = rng.choice(MIXES)
     case['check_edit'] = rng.random() < 0.3
     case['strict'] = rng.random() < 0.3
+    case['hook_style'] = rng.choice(['forward', 'forward', 'swallow'])
     for acts in case['script'] + [case['before'], case['after']]:
         for a in acts:
             if a.get('k') == 'raise':
@@ -351,7 +375,14 @@ def opts_kwargs(o, tol_bits, form='plain'):
     if form == 'numpy':
         kw.update(min_iter=np.int64(kw['min_iter']), max_iter=np.int64(kw['max_iter']), tol=np.float64(kw['tol']),
                   offset=np.int64(kw['offset']), catch_first_error=np.bool_(kw['catch_first_error']))
+    if form == 'omit':
+        # leave out every keyword whose value is the documented default: the call must mean the same
+        kw = {k: v for k, v in kw.items() if not (k in DEFAULTS and type(v) is type(DEFAULTS[k]) and v == DEFAULTS[k])}
     return kw
+
+
+# the documented defaults of solve_t() / solve() / solve_period()
+DEFAULTS = dict(min_iter=0, max_iter=100, tol=1e-10, offset=0, failures='raise', errors='raise', catch_first_error=True)
 
 
 def t_arg(case):
@@ -472,6 +503,8 @@ def outcome_vals(kind, prev, nE):
         return [float('inf') for p in prev]
     if kind == 'allninf':
         return [float('-inf') for p in prev]
+    if kind == 'tiny2':  # a move of 2**-30 (9.3e-10): above the default tolerance 1e-10, below 1e-8
+        return [p + 2.0 ** -30 if np.isfinite(p) else 2.0 ** -7 for p in prev]
     if kind == 'tiny':   # a move far below float32's machine epsilon relative to 1, yet above a tolerance of 1e-10
         return [p + 2.0 ** -26 if np.isfinite(p) else 2.0 ** -7 for p in prev]
     if kind == 'zero':   # every value exactly 0.0 (what 'replace' turns a non-finite previous value into)
